@@ -102,6 +102,8 @@ type cs struct {
 	App      int      `json:"app,omitempty"`      // application program index
 	EvalIn   string   `json:"eval_in,omitempty"`  // the evaluator's input (fixed for its lifetime)
 	Sessions []string `json:"sessions,omitempty"` // the garbler's input per session
+	// appcirc: one invocation `garbled -circ -ssa f1 f2 ...` of the application; Files index appCircPrograms
+	Files []int `json:"files,omitempty"`
 }
 
 type output struct {
@@ -175,6 +177,77 @@ var appPrograms = []struct {
 			}
 			return uint64(s)
 		}},
+}
+
+// appCircPrograms are compiled to files by the application; sizes differ so that buffered output of one file ends
+// at different places relative to the 4 KiB / 16 KiB buffer boundaries.
+var appCircPrograms = []struct{ name, src string }{
+	{"add", "package main\n\nfunc main(a, b uint64) uint64 {\n\treturn a + b\n}\n"},
+	{"mul", "package main\n\nfunc main(a, b uint32) uint32 {\n\treturn a * b\n}\n"},
+	{"cmp", "package main\n\nfunc main(a, b uint8) bool {\n\treturn a > b\n}\n"},
+	{"big", "package main\n\nfunc main(a, b uint64) uint64 {\n\treturn a*b + a/(b|1)\n}\n"},
+}
+
+// runAppCirc compiles the files in ONE invocation of the application and compares every output file with the one a
+// single-file invocation writes for the same source.
+func runAppCirc(k cs) (string, string) {
+	bin := filepath.Join(os.Getenv("VERIF_WORK"), "garbled-app")
+	if _, err := os.Stat(bin); err != nil {
+		return "skip", "apps/garbled binary not built"
+	}
+	dir, err := os.MkdirTemp(os.Getenv("VERIF_WORK"), "c08circ")
+	if err != nil {
+		return "skip", err.Error()
+	}
+	defer os.RemoveAll(dir)
+	invoke := func(sub string, files []int) (map[string][]byte, string) {
+		d := filepath.Join(dir, sub)
+		os.MkdirAll(d, 0755)
+		args := []string{"-circ", "-ssa"}
+		for _, f := range files {
+			name := appCircPrograms[f].name + ".mpcl"
+			os.WriteFile(filepath.Join(d, name), []byte(appCircPrograms[f].src), 0644)
+			args = append(args, name)
+		}
+		cmd := exec.Command(bin, args...)
+		cmd.Dir = d
+		cmd.Env = append(os.Environ(), "MPCLDIR="+runner.RepoDir)
+		out, err := cmd.CombinedOutput()
+		if err != nil {
+			return nil, fmt.Sprintf("garbled %v: %v: %s", args, err, out)
+		}
+		res := map[string][]byte{}
+		for _, f := range files {
+			for _, suffix := range []string{".mpclc", ".ssa"} {
+				data, err := os.ReadFile(filepath.Join(d, appCircPrograms[f].name+suffix))
+				if err != nil {
+					return nil, err.Error()
+				}
+				res[appCircPrograms[f].name+suffix] = data
+			}
+		}
+		return res, ""
+	}
+	multi, fail := invoke("multi", k.Files)
+	if fail != "" {
+		return "invocation-failed", fail
+	}
+	for i, f := range k.Files {
+		single, fail := invoke(fmt.Sprintf("single%d", i), []int{f})
+		if fail != "" {
+			return "invocation-failed", fail
+		}
+		for name, want := range single {
+			if got := multi[name]; !bytes.Equal(got, want) {
+				var names []string
+				for _, x := range k.Files {
+					names = append(names, appCircPrograms[x].name+".mpcl")
+				}
+				return "output-depends-on-other-files", fmt.Sprintf("`garbled -circ -ssa %s` writes %d bytes of %s, `garbled -circ -ssa %s.mpcl` writes %d bytes", strings.Join(names, " "), len(got), name, appCircPrograms[f].name, len(want))
+			}
+		}
+	}
+	return "", ""
 }
 
 func hexBytes(s string) []byte {
@@ -393,7 +466,7 @@ func baseline(prog int) output {
 
 func runCase(ctx *runner.Ctx, k cs) {
 	ctx.Eval(1)
-	if k.Mode == "app" {
+	if k.Mode == "app" || k.Mode == "appcirc" {
 		runAppCase(ctx, k)
 		return
 	}
@@ -473,6 +546,20 @@ func runCase(ctx *runner.Ctx, k cs) {
 }
 
 func runAppCase(ctx *runner.Ctx, k cs) {
+	if k.Mode == "appcirc" {
+		kind, what := runAppCirc(k)
+		switch kind {
+		case "":
+			ctx.Nontrivial(fmt.Sprintf("appcirc/%v", k.Files))
+			ctx.Outcome(fmt.Sprintf("app-compile-ok/files=%d", len(k.Files)))
+		case "skip":
+			ctx.Outcome("app-compile-skipped")
+			ctx.Incomplete("an app-level compilation could not be run in this environment: " + what)
+		default:
+			ctx.Violate("app-compile."+kind, "apps/garbled: "+what, k)
+		}
+		return
+	}
 	kind, what := runApp(k)
 	switch kind {
 	case "":
@@ -578,6 +665,23 @@ func work(ctx *runner.Ctx) {
 						emit(cs{Mode: "history", Prog: last, History: []int{h2, h1}, Share: share})
 					}
 				}
+			}
+		}
+	}
+	// the application compiling several files in one invocation: every ordered selection of 1..3 of 4 programs
+	np := len(appCircPrograms)
+	for a := 0; a < np; a++ {
+		emit(cs{Mode: "appcirc", Files: []int{a}})
+		for b := 0; b < np; b++ {
+			if b == a {
+				continue
+			}
+			emit(cs{Mode: "appcirc", Files: []int{a, b}})
+			for c := 0; c < np; c++ {
+				if c == a || c == b || ctx.Quick() && (a+b+c)%2 == 0 {
+					continue
+				}
+				emit(cs{Mode: "appcirc", Files: []int{a, b, c}})
 			}
 		}
 	}
